@@ -620,7 +620,8 @@ def run_trajectory(case: dict) -> list[dict]:
         for o, series in (tr.get("demand") or {}).items():
             cur[f"d_{names.get(o, o)}"] = [float(num(series[k]))]
         args = [cur[n] for n in names_in]
-        if any((not np.isfinite(z)) or abs(z) > 1e5 for a in args for z in a):
+        fed_back = [cur[n] for n in names_in if n + "+" in names_out]
+        if any((not np.isfinite(z)) or abs(z) > 1e5 for a in fed_back for z in a):
             break   # the closed loop left every physically meaningful range (position-only generic starts are not
             #         admissible states): beyond this point the comparison would only measure floating-point blow-up
         outs = lib(F, *[cs.DM(a) if len(a) else cs.DM(0, 1) for a in args])
